@@ -1291,7 +1291,11 @@ func bleed(tokens []Token, _ string) pr.CssProperty {
 	if keyword == "auto" {
 		return pr.DimOrS{S: "auto"}
 	} else {
-		return getLength(token, true, false).ToValue()
+		length := getLength(token, true, false)
+		if length.IsNone() {
+			return nil
+		}
+		return length.ToValue()
 	}
 }
 
